@@ -50,6 +50,17 @@ def run(tier):
     # holds for every history only if count = list length is maintained - the bookkeeping obligations of C07 (linking adds
     # exactly one, reporting subtracts what it releases, nothing else touches list or count, no link of a listed node is
     # rewritten), re-decided under this property
+    # the icon bytes a QueryLargeTlvResp carries are read through the record's cache pointer: they are determined only while that
+    # pointer is NULL or a live block the record owns (not another interface's block that its Reset may free)
+    from .frame_common import FrameSetup as _FS, run_regions as _rr, icon_invariant as _ii
+    from .automata_common import load_core as _lc
+    rep.rule('R02.8', 'the cached icon the large-TLV responses are copied from is NULL or a live heap block owned by this interface\'s record after every cell', floor=9)
+    rep.rule('R02.9', 'the interface-record lookup: hit only on an equal context, fresh record all-zero, existing records untouched, and nothing but the lookup walks the list of records', floor=3)
+    from .state_record import check_state_for_iface as _csi
+    _csi(rep, _lc('systemd'), 'R02.9')
+    _fs8 = _FS(_lc('systemd'), mtu_ok=True)
+    _res8, _o8, _s8 = _rr(_fs8)
+    _ii(rep, 'R02.8', _fs8, _res8)
     from .c07 import decide as list_decide, RuleView
     from .automata_common import load_core
     rep.rule('R02.7', 'the observation count the QueryResp announces is the length of the list it serialises (bookkeeping obligations R07.f/g/j)', floor=40)
